@@ -32,6 +32,8 @@ func c13Schema() *resolved.Schema {
 					"meta":    sast.Attribute{Type: sast.RecordType{"by": sast.Attribute{Type: sast.EntityTypeRef("User"), Optional: true}, "note": sast.Attribute{Type: sast.String(), Optional: true}}, Optional: true},
 					"label":   sast.Attribute{Type: sast.String(), Optional: true},
 					"plain":   sast.Attribute{Type: sast.RecordType{"type": sast.Attribute{Type: sast.String()}, "id": sast.Attribute{Type: sast.String()}}, Optional: true},
+					"groups":  sast.Attribute{Type: sast.Set(sast.RecordType{"info": sast.Attribute{Type: sast.RecordType{"owner": sast.Attribute{Type: sast.EntityTypeRef("User")}, "limit": sast.Attribute{Type: sast.Decimal(), Optional: true}}}}), Optional: true},
+					"nets":    sast.Attribute{Type: sast.Set(sast.RecordType{"ranges": sast.Attribute{Type: sast.Set(sast.Duration())}}), Optional: true},
 				},
 				Tags: sast.Decimal(),
 			},
@@ -76,7 +78,17 @@ func VerifC13_SchemaCoercion() {
 	var key types.String
 	tagsImp, tagsExp := []byte(`{}`), []byte(`{}`)
 	var wantTag types.Value
-	switch vrt.Choice("position", 8) {
+	switch vrt.Choice("position", 10) {
+	case 8: // entity reference two records deep inside a set element
+		key, want = "groups", types.NewSet(types.NewRecord(types.RecordMap{"info": types.NewRecord(types.RecordMap{"owner": uid})}))
+		attrsImp = c13Cat(`{"groups":[{"info":{"owner":`, imp, `}}]}`)
+		attrsExp = c13Cat(`{"groups":[{"info":{"owner":`, exp, `}}]}`)
+	case 9: // extension strings in a set inside a record inside a set
+		d1, _ := types.ParseDuration("1h")
+		d2, _ := types.ParseDuration("2m")
+		key, want = "nets", types.NewSet(types.NewRecord(types.RecordMap{"ranges": types.NewSet(d1, d2)}))
+		attrsImp = []byte(`{"nets":[{"ranges":["1h","2m"]}]}`)
+		attrsExp = []byte(`{"nets":[{"ranges":[{"__extn":{"fn":"duration","arg":"1h"}},{"__extn":{"fn":"duration","arg":"2m"}}]}]}`)
 	case 0: // attribute of entity type
 		key, want = "owner", uid
 		attrsImp, attrsExp = c13Cat(`{"owner":`, imp, `}`), c13Cat(`{"owner":`, exp, `}`)
